@@ -218,6 +218,9 @@ def execute(machine_cls, cfg, ops, known=(), trace=False):
     ctx = Ctx(known)
     if trace:
         ctx.trace = []
+    from .seams.ids import SEAM
+    SEAM.install()          # process-wide and for good: the tables of the code under test outlive a history, too
+    reused0 = SEAM.reused
     m = machine_cls(cfg, ctx)
     viol = None
     op = None
@@ -247,6 +250,8 @@ def execute(machine_cls, cfg, ops, known=(), trace=False):
             viol = v
     finally:
         m.teardown()
+        if SEAM.reused > reused0:
+            ctx.fault("identity_number_of_dead_object_reused", SEAM.reused - reused0)
     return viol, ctx
 
 
